@@ -92,6 +92,12 @@
 /* Next instruction variations */
 #define maybe_collect() do {\
     if (janet_vm.next_collection >= janet_vm.gc_interval) janet_collect(); } while (0)
+#ifdef JANET_VERIF
+/* Verification hook H1: let the GC schedule be driven from the environment. */
+#undef maybe_collect
+#define maybe_collect() do {\
+    if (janet_verif_safepoint() || janet_vm.next_collection >= janet_vm.gc_interval) janet_collect(); } while (0)
+#endif
 #define vm_checkgc_next() maybe_collect(); vm_next()
 #define vm_pcnext() pc++; vm_next()
 #define vm_checkgc_pcnext() maybe_collect(); vm_pcnext()
@@ -1677,6 +1683,9 @@ void janet_sandbox_assert(uint32_t forbidden_flags) {
 
 /* Clear all memory associated with the VM */
 void janet_deinit(void) {
+#ifdef JANET_VERIF
+    janet_verif_report();
+#endif
     janet_clear_memory();
     janet_symcache_deinit();
     janet_free(janet_vm.roots);
